@@ -374,7 +374,7 @@ Definition write_new_version (c : cfg) (i : invr) : M unit :=
                       (if upgrade then write_namaste (c_mo c) (i_spec i) ;; forM_ old remove_file_inf else ret tt)) ;;
      match r with
      | Some _ =>
-       (if upgrade then attempt (remove_file_inf (c_mo c ++ [i_spec i])) ;; ret tt else ret tt) ;;       (* fs.rs:510-518 *)
+       attempt (if upgrade then remove_file_inf (c_mo c ++ [i_spec i]) else ret tt) ;;                  (* fs.rs:510-518 *)
        attempt (write_file (c_mo c ++ [c_inv c]) old_inv ;; write_file (c_mo c ++ [c_side c]) old_side) ;;  (* 519-524 *)
        attempt (step (SRename dest src)) ;;                                 (* fs.rs:525-528 *)
        throw EGeneral                                                       (* fs.rs:530 *)
